@@ -415,6 +415,9 @@ class Interp:
             inner = node.func.value
             if isinstance(inner.func, ast.Name) and inner.func.id == "super" and not inner.args:
                 return self.call_super(node, fr)
+        lazy = self.lazy_genexp_call(node, fr)
+        if lazy is not None:
+            return lazy
         fn = self.eval(node.func, fr)
         args: List[AV] = []
         for a in node.args:
@@ -428,6 +431,49 @@ class Interp:
                 raise self.unsupported(node, "**kwargs call")
             kwargs[k.arg] = self.eval(k.value, fr)
         return self.call(fn, args, kwargs, node)
+
+    def lazy_genexp_call(self, node: ast.Call, fr: Frame) -> Optional[AV]:
+        """next(<genexp>[, default]) / any(<genexp>) / all(<genexp>) over a concrete iterable: elements are produced one
+        at a time and consumption stops as the builtin stops, so side effects in the conditions / element expression
+        (Lexer.accept, stream advances) happen exactly as often as at run time.  None = not this idiom."""
+        if not (isinstance(node.func, ast.Name) and node.func.id in ("next", "any", "all") and node.args and isinstance(node.args[0], ast.GeneratorExp)):
+            return None
+        if node.keywords or len(node.args) > (2 if node.func.id == "next" else 1):
+            return None
+        try:
+            bv = self.lookup(node.func.id, fr, node)
+        except Exception:  # noqa: BLE001
+            return None
+        if not (isinstance(bv, ExternalV) and bv.name == f"builtins.{node.func.id}"):
+            return None
+        ge = node.args[0]
+        if len(ge.generators) != 1 or ge.generators[0].is_async:
+            return None
+        g = ge.generators[0]
+        src = self.eval(g.iter, fr)
+        kind, payload = self.host.iterate(src, g.iter)
+        if kind != "concrete":
+            return None
+        cfr = Frame(fr.fi, fr.mod, parent=fr)
+        cfr.self_av = fr.self_av
+        which = node.func.id
+        for item in payload:
+            self.assign_target(g.target, item, cfr)
+            if not all(self.truth(self.eval(c, cfr), c) for c in g.ifs):
+                continue
+            v = self.eval(ge.elt, cfr)
+            if which == "next":
+                return v
+            t = self.truth(v, ge.elt)
+            if which == "any" and t:
+                return TRUE
+            if which == "all" and not t:
+                return FALSE
+        if which == "next":
+            if len(node.args) == 2:
+                return self.eval(node.args[1], fr)
+            raise AbsRaise(HostExc("StopIteration", ""), self.site(node, fr))
+        return FALSE if which == "any" else TRUE
 
     def e_Lambda(self, node: ast.Lambda, fr: Frame) -> AV:
         return LambdaV(node, fr, fr.mod)
@@ -1071,6 +1117,53 @@ class Interp:
                 self.ctx.assume_le0(Lin.k(1) - ln.lin)  # a match of C+ is at least one character long
             fr.locals[iname] = h.binop("Add", iv, ln, st)
         return True
+
+    def s_Match(self, st: ast.Match, fr: Frame) -> None:
+        """`match subject:` with value / singleton / or / wildcard / capture patterns and guards, executed as the
+        if / elif chain it abbreviates (value patterns compare with ==, singletons with `is`)."""
+        subj = self.eval(st.subject, fr)
+        tmp = f"__match_subject_{id(st)}"
+        fr.locals[tmp] = subj
+
+        def test_of(pat: ast.pattern) -> Optional[ast.expr]:
+            """An expression that is true iff the pattern matches (None = always)."""
+            name = ast.Name(id=tmp, ctx=ast.Load())
+            if isinstance(pat, ast.MatchValue):
+                return ast.Compare(left=name, ops=[ast.Eq()], comparators=[pat.value])
+            if isinstance(pat, ast.MatchSingleton):
+                return ast.Compare(left=name, ops=[ast.Is()], comparators=[ast.Constant(pat.value)])
+            if isinstance(pat, ast.MatchOr):
+                tests = [test_of(p_) for p_ in pat.patterns]
+                if any(t_ is None for t_ in tests):
+                    return None
+                return ast.BoolOp(op=ast.Or(), values=tests)
+            if isinstance(pat, ast.MatchClass) and not pat.patterns and not pat.kwd_patterns:
+                return ast.Call(func=ast.Name(id="isinstance", ctx=ast.Load()), args=[name, pat.cls], keywords=[])
+            if isinstance(pat, ast.MatchAs) and pat.pattern is None:
+                return None  # wildcard or bare capture
+            if isinstance(pat, ast.MatchAs):
+                return test_of(pat.pattern)
+            raise self.unsupported(st, f"match pattern {type(pat).__name__}")
+
+        def captures(pat: ast.pattern) -> List[str]:
+            if isinstance(pat, ast.MatchAs) and pat.name:
+                return [pat.name] + (captures(pat.pattern) if pat.pattern is not None else [])
+            return []
+
+        for case in st.cases:
+            t = test_of(case.pattern)
+            if t is not None:
+                ast.fix_missing_locations(ast.copy_location(t, st))
+                for sub in ast.walk(t):
+                    ast.copy_location(sub, st)
+                if not self.truth(self.eval(t, fr), st):
+                    continue
+            for nm in captures(case.pattern):
+                fr.locals[nm] = subj
+            if case.guard is not None and not self.truth(self.eval(case.guard, fr), case.guard):
+                continue
+            self.exec_block(case.body, fr)
+            return
 
     def s_Break(self, st: ast.Break, fr: Frame) -> None:
         raise _Break()
